@@ -92,7 +92,7 @@ class CookieJar(AbstractCookieJar):
         self._morsel_cache: defaultdict[tuple[str, str], dict[str, Morsel[str]]] = (
             defaultdict(dict)
         )
-        self._host_only_cookies: set[tuple[str, str]] = set()
+        self._host_only_cookies: set[tuple[str, str, str]] = set()
         self._unsafe = unsafe
         self._quote_cookie = quote_cookie
         if treat_as_secure_origin is None:
@@ -129,7 +129,7 @@ class CookieJar(AbstractCookieJar):
     @property
     def host_only_cookies(self) -> frozenset[tuple[str, str]]:
         """Return the host-only cookies stored in this jar."""
-        return frozenset(self._host_only_cookies)
+        return frozenset((domain, name) for domain, _, name in self._host_only_cookies)
 
     def save(self, file_path: PathLike) -> None:
         """Save cookies to a file using JSON format.
@@ -156,7 +156,7 @@ class CookieJar(AbstractCookieJar):
                     if attr_val:
                         morsel_data[attr] = attr_val
                 # Persist or it reloads as a domain cookie and leaks to subdomains.
-                if (domain, name) in self._host_only_cookies:
+                if (domain, path, name) in self._host_only_cookies:
                     morsel_data["host_only"] = True
                 if (exp := self._expirations.get((domain, path, name))) is not None:
                     morsel_data["expires_timestamp"] = exp
@@ -309,7 +309,7 @@ class CookieJar(AbstractCookieJar):
 
     def _delete_cookies(self, to_del: list[tuple[str, str, str]]) -> None:
         for domain, path, name in to_del:
-            self._host_only_cookies.discard((domain, name))
+            self._host_only_cookies.discard((domain, path, name))
             self._cookies[(domain, path)].pop(name, None)
             self._morsel_cache[(domain, path)].pop(name, None)
             self._expirations.pop((domain, path, name), None)
@@ -361,13 +361,6 @@ class CookieJar(AbstractCookieJar):
                 # Setting cookies for different domains is not allowed
                 continue
 
-            # The new cookie replaces the host-only-flag of an earlier one
-            # with the same name: a Domain cookie is no longer host-only.
-            if host_only:
-                self._host_only_cookies.add((domain, name))
-            else:
-                self._host_only_cookies.discard((domain, name))
-
             path = cookie["path"]
             if not path or path[0] != "/":
                 # Set the cookie's path to the response path
@@ -379,6 +372,13 @@ class CookieJar(AbstractCookieJar):
                     path = "/" + path[1 : path.rfind("/")]
                 cookie["path"] = path
             path = path.rstrip("/")
+
+            # The new cookie replaces the host-only-flag of an earlier one
+            # with the same name and path: a Domain cookie is no longer host-only.
+            if host_only:
+                self._host_only_cookies.add((domain, path, name))
+            else:
+                self._host_only_cookies.discard((domain, path, name))
 
             if max_age := cookie["max-age"]:
                 try:
@@ -473,7 +473,8 @@ class CookieJar(AbstractCookieJar):
             for name, cookie in self._cookies[p].items():
                 domain = cookie["domain"]
 
-                if (domain, name) in self._host_only_cookies and domain != hostname:
+                host_only_key = (domain, p[1], name)
+                if host_only_key in self._host_only_cookies and domain != hostname:
                     continue
 
                 # Skip edge case when the cookie has a trailing slash but request doesn't.
